@@ -501,4 +501,8 @@ def search(ctx):
         ctx.run(scaling_invariance, target=target, noise=nz, ref=ref, mu=mu, c=c)
         t3, tk3 = U.psd_target(rng, (F,), D)
         n3, _ = U.hpd_stack(rng, (F,), D)
-        ctx.run(reference_channel_maximises_snr, target=t3, noise=n3, mu=None if i % 2 else mu)
+        # absolute level of the recording: both PSDs scaled together (the criterion is a ratio; a floor on its denominator
+        # that is not relative shows for quiet recordings only)
+        lvl = 1.0 if rng.random() < 0.5 else float(10.0 ** rng.uniform(-24, 12))
+        ctx.count('search-reference-level:' + ('1' if lvl == 1.0 else '1e%d' % int(np.floor(np.log10(lvl)))))
+        ctx.run(reference_channel_maximises_snr, target=t3 * lvl, noise=n3 * lvl, mu=None if i % 2 else mu)
